@@ -103,7 +103,7 @@ FV(k, j, idx) ==   \* j-th field of the container; idx used by messages
     [] k = 3 -> Fd(nm, P("uint8"), idx, "", LineDoc(" one line"), <<>>, "")
     [] k = 4 -> Fd(nm, A(P("int64")), idx, "", BlockDoc(" block "), <<>>, "")
     [] k = 5 -> Fd(nm, P("bool"), idx, "", NoDoc, << Tag("json:\"" \o nm \o ",omitempty\"", "json", nm \o ",omitempty", FALSE), Tag("flag" \o nm, "flag" \o nm, "", TRUE) >>, "")
-    [] k = 6 -> Fd(nm, P("guid"), idx, "", NoDoc, <<>>, " trailing remark")
+    [] k = 6 -> Fd(nm, IF j % 2 = 1 THEN P("guid") ELSE M("string", A(P("guid"))), idx, "", NoDoc, <<>>, " trailing remark")   \* (lines of different widths)
     [] k = 7 -> Fd(nm, M("uint32", P("date")), idx, "both", LineDoc(" line one") \o LineDoc(" line two"), <<>>, "")
     [] k = 8 -> Fd(nm, P("float64"), idx, "", BlockDoc(" first paragraph\n\n   second paragraph after an empty line\n "), <<>>, "")
     [] k = 9 -> PlainF(nm, P("int16"), idx) @@ ("idxlit" :> ("0" \o ToString(idx)))   \* message indices are decimal: 010 is ten
@@ -131,7 +131,7 @@ ItemsCase(i) ==   \* i in 1..4*NItemSeqs
        [] c = "union" -> << [k |-> "union", name |-> "Box", op |-> "", opval |-> NoOp, doc |-> NoDoc,
                               branches |-> [j \in 1..Len(ks) |->
                                  LET f == FV(ks[j], j, 1) IN
-                                 [idx |-> j, dep |-> f.dep, doc |-> f.doc, attrfirst |-> AttrFirst(f),
+                                 [idx |-> j, dep |-> f.dep, doc |-> f.doc, attrfirst |-> AttrFirst(f), semi |-> (j % 2 = 0) \/ f.trail # "", trail |-> f.trail,
                                   def |-> IF j % 2 = 1
                                           THEN [k |-> "struct", name |-> Nm("Br", j), ro |-> FALSE, op |-> "", opval |-> NoOp, doc |-> NoDoc,
                                                 asp |-> "post", fields |-> << [f EXCEPT !.dep = "", !.doc = NoDoc, !.idx = 0] >>]
